@@ -492,4 +492,64 @@ def r8_structure(a, tier):
     return rep
 
 
-RULES = [r_chain, r1_registry, r2_fields, r3_string_images, r4_cycles, r5_state_keys, r6_exports, r7_source_literals, r8_structure]
+def r9_node_state(a, tier):
+    import weakref
+
+    from ..classes import dataclass_fields
+    from ..minieval import Obj, Unsupported
+    from ..modelinterp import Bound, ClassRef, Hook, ModelInterp, Stub
+    rep = RuleReport(
+        'C14.R9',
+        'the pickled state of a grammar node carries every declared field: __getstate__ (-> __pub__) and __setstate__ of Rule and of '
+        'expression classes, interpreted on stand-in nodes whose fields all hold NON-default values, give a fresh object on which every '
+        'field the class declares for its constructor reads back the same - the marks of the left-recursion analysis (is_lrec, is_memo) '
+        'included: an unpickled model parses with the optimized grammar it cached before, which is not analysed again',
+        floor=4,
+    )
+    PEG = 'tatsu.peg'
+    tok = Stub(f'{PEG}.syntax.Token', token='t')
+    subjects = [
+        (f'{PEG}.base.Rule', dict(name='r', exp=tok, params=('p',), kwparams={'k': 1}, decorators=['nomemo'], base='b', is_name=True, is_tokn=True, no_memo=True,
+                                  no_stak=True, is_memo=False, is_lrec=True)),
+        (f'{PEG}.syntax.Token', dict(token='tk')),
+        (f'{PEG}.pattern.Pattern', dict(pattern='a+')),
+        (f'{PEG}.syntax.Call', dict(name='callee')),
+        (f'{PEG}.named.Named', dict(name='n', exp=tok)),
+    ]
+
+    def class_vars(o):
+        if isinstance(o, Stub):
+            return dict(o._attrs)
+        if isinstance(o, ClassRef):
+            ci = a.p.classes[o.q]
+            return {n: None for n in [*ci.methods, *ci.assigns, *[f.name for f in dataclass_fields(a.ct, o.q)]]}
+        raise Unsupported('vars()')
+    for q, vals in subjects:
+        if q not in a.p.classes:
+            continue
+        declared = [f.name for f in dataclass_fields(a.ct, q) if f.init and not f.name.startswith('_')]
+        me = Stub(q, ast=None, ctx=None, parseinfo=None, **vals)
+        fresh = Stub(q)
+        it = ModelInterp(a, {'vars': Hook(class_vars), 'dc': Hook(None, fields=Hook(lambda o: [Obj(name=f.name) for f in dataclass_fields(a.ct, o._cls)])),
+                             'inspect': Hook(None, ismethod=Hook(lambda v: False)), 'is_readonly_property': Hook(lambda o, n: False),
+                             'hasattr': Hook(lambda o, n: isinstance(o, Stub) and n in o._attrs),
+                             'setattr': Hook(lambda o, n, v: o._attrs.__setitem__(n, v)),
+                             'weakref': Hook(None, ReferenceType=weakref.ReferenceType, ProxyTypes=weakref.ProxyTypes)})
+        it.globals['rowselect'] = Hook(lambda keys, row, where=None, it=it: {k: row[k] for k in keys if k in row and (where is None or it.as_callable(where)(k, row[k]))})
+        try:
+            state = it.call_bound(Bound(me, a.ct.lookup(q, '__getstate__')), [], {})
+            it.call_bound(Bound(fresh, a.ct.lookup(q, '__setstate__')), [state], {})
+        except Unsupported as e:
+            raise AnalysisError(f'C14.R9: cannot interpret the pickle protocol of {q.split(".")[-1]}: {e}') from e
+        lost = [f for f in declared if f in vals and not (f in fresh._attrs and fresh._attrs[f] == vals[f] and (fresh._attrs[f] is vals[f] or type(fresh._attrs[f]) is type(vals[f])))]
+        rep.add({'class': q.split('.')[-1], 'declared_fields_set': sorted(set(declared) & set(vals)), 'state_keys': sorted(state) if isinstance(state, dict) else repr(state)[:60],
+                 'lost': lost})
+        for f in lost:
+            g = a.ct.lookup(q, '__pub__') or a.ct.lookup(q, '__getstate__')
+            rep.fail(g.qualname, f'state-lost:{q.split(".")[-1]}.{f}', f'{q.split(".")[-1]}.{f} = {vals[f]!r} does not survive __getstate__ / __setstate__ (the state has '
+                     f'{sorted(state) if isinstance(state, dict) else state!r}): the unpickled node falls back to the class default' + (
+                         ' - a left-recursive rule of a model that had parsed before pickling is then run as an ordinary memoized rule' if f in ('is_lrec', 'is_memo') else ''), g.loc)
+    return rep
+
+
+RULES = [r_chain, r1_registry, r2_fields, r3_string_images, r4_cycles, r5_state_keys, r6_exports, r7_source_literals, r8_structure, r9_node_state]
